@@ -142,6 +142,28 @@ Section Receive.
   Definition widths_ok (ncols : nat) (blk : list (list bytes)) : bool :=
     forallb (fun row => (length row =? ncols)%nat) blk.
 
+  (** slice.IndicesToValues(row, pk): vals[k] for every key index, a runtime panic when an
+      index is not below len(row).  IndexTable applies it to blk[0] and IndexBlock to every row. *)
+  Definition pick (row : list bytes) (k : N) : res bytes :=
+    if N.of_nat (length row) <=? k then Panic else idx row (N.to_nat k).
+  Fixpoint pick_row (row : list bytes) (pk : list N) : res unit :=
+    match pk with
+    | [] => Ok tt
+    | k :: pk' => match pick row k with Ok _ => pick_row row pk' | Err e => Err e | Panic => Panic end
+    end.
+  Fixpoint pick_rows (blk : list (list bytes)) (pk : list N) : res unit :=
+    match blk with
+    | [] => Ok tt
+    | row :: blk' => match pick_row row pk with Ok _ => pick_rows blk' pk | r => r end
+    end.
+
+  (** IndexTable's guard: every primary-key index must be below the column count *)
+  Definition pk_out_of_range (ncols : nat) (pk : list N) : bool :=
+    existsb (fun k => N.of_nat ncols <=? k) pk.
+  (* a weaker guard ("the largest index is not above the column count") lets ncols through *)
+  Definition pk_out_of_range_weak (ncols : nat) (pk : list N) : bool :=
+    N.of_nat ncols <? fold_right N.max 0 pk.
+
   (** the loop of ingest.IndexTable over tbl.Blocks (position i) *)
   Fixpoint index_blocks (st : store) (tbl : table) (blocks : list bytes) (i : nat) (m : N) : sres :=
     match blocks with
@@ -158,6 +180,10 @@ Section Receive.
             | [] => (Err COther, st, m)                    (* "block ... is empty" *)
             | _ :: _ =>
                 if widths_ok (length (tb_columns tbl)) blk then
+                  match pick_rows blk (tb_pk tbl) with     (* IndicesToValues / IndexBlock *)
+                  | Panic => (Panic, st, m)
+                  | Err e => (Err e, st, m)
+                  | Ok _ =>
                   let isum := idx_sum sum (tb_pk tbl) in
                   if set_ok fp 1 st then
                     let st' := add_blkidx st isum in       (* SaveBlockIndex, before the comparison *)
@@ -168,13 +194,14 @@ Section Receive.
                     | Panic => (Panic, st', m)
                     end
                   else (Err COther, st, m)                 (* Store.Set failed *)
+                  end
                 else (Err COther, st, m)
             end
         end
     end.
 
   Definition index_table (st : store) (tsum : bytes) (tbl : table) : sres :=
-    if existsb (fun k => N.of_nat (length (tb_columns tbl)) <=? k) (tb_pk tbl)
+    if pk_out_of_range (length (tb_columns tbl)) (tb_pk tbl)
     then (Err COther, st, 0)                               (* "primary key index out of range" *)
     else
       let '(r, st', m) := index_blocks st tbl (tb_blocks tbl) 0 0 in
